@@ -20,6 +20,9 @@ Part B  (class changes between sources: default, environment, config strings, op
     class, arguments given with / after the last class change have their values, no value comes from nowhere,
     dict_kwargs are those configured for the final class, and instantiate_classes builds exactly that.
 
+Part D  (several components in one parser: top-level class argument, class argument below a dotted key, class group
+         with a class-typed parameter, class argument inside a subcommand): same contract per component, no extra constructions.
+
 Oracle: the MODEL tables and `conforms` / `valid` / `expected` in gen_j.py (written from the class definitions; Python's
 own issubclass on the family), and the constructor log written by the classes themselves.
 Not asserted (reported in notes): dict_kwargs handed explicitly to a class without **kwargs (accepted by parse, the
@@ -149,8 +152,8 @@ def partA_cases(thorough):
         else:
             sel = flat
         for spec in sel:
-            if spec["cls"].startswith("bare:") and G.short_resolvable(spec["cls"][5:], DECL[decl][1]["of"]):
-                continue  # here the bare name is a legitimate short form (covered by the `short` notation)
+            if spec["cls"].startswith("bare:") and G.conforms(spec["cls"][5:], DECL[decl][1]["of"]):
+                continue  # here the bare name is a legitimate short form (covered by the `short` notation) or names a conforming abstract class (not asserted)
             add(decl, spec)
         if DECL[decl][1]["optional"]:
             add(decl, None)
@@ -746,9 +749,139 @@ def partC_cases(thorough):
     return cases
 
 
+
+# ====================================================================== Part D: several class-typed components in one parser
+def make_parser_D():
+    """top-level class argument, class argument below a dotted key, class group with a class-typed parameter, subcommand"""
+    parser = ArgumentParser(exit_on_error=False)
+    parser.add_argument("--cfg", action="config")
+    parser.add_argument("--x", type=G.Base)
+    parser.add_argument("--grp.y", type=Optional[G.Unrelated])
+    parser.add_class_arguments(G.Holder, "g")
+    sub = ArgumentParser(exit_on_error=False)
+    sub.add_argument("--m", type=G.Base, default={"class_path": G.path("SubAdd")})
+    sub.add_argument("--k", type=int, default=0)
+    other = ArgumentParser(exit_on_error=False)
+    other.add_argument("--o", type=Optional[G.Unrelated])
+    sc = parser.add_subcommands()
+    sc.add_subcommand("run", sub)
+    sc.add_subcommand("other", other)
+    return parser
+
+
+SUMMARY_D = ("ArgumentParser(exit_on_error=False): --cfg (config), --x: Base, --grp.y: Optional[Unrelated], add_class_arguments(Holder, 'g'), "
+             "subcommands run(--m: Base = SubAdd, --k: int) / other(--o: Optional[Unrelated]); classes from bounded.gen_j")
+
+
+def partD_cases(thorough):
+    xs = [S("Base", a=5), S("SubAdd", b=2), S("SubKw", kw={"q": 4}), S("Inner", i=3), S("make_base", a=4)]
+    ys = [None, S("Unrelated", u=4)]
+    children = [S("Base"), S("SubOver", a="w"), S("SubReq", r=3)]
+    opts = [None, S("SubAdd", b=0.25)]
+    ms = ["default", S("Base", a=-3), S("SubOver", c=True)]
+    out = []
+    n = 0
+    for xi, x in enumerate(xs):
+        for yi, y in enumerate(ys):
+            for ci, child in enumerate(children):
+                for oi, opt in enumerate(opts):
+                    for mi, m in enumerate(ms):
+                        n += 1
+                        if not thorough and n % 7 != 1:
+                            continue
+                        out.append({"part": "D", "x": x, "y": y, "child": child, "opt": opt, "m": m, "sub": "run",
+                                    "id": G.short_key(f"D:x={G.label(x)},y={G.label(y)},g=({G.label(child)},{G.label(opt)}),run.m={G.label(m) if m != 'default' else 'default'}")})
+    out.append({"part": "D", "x": xs[0], "y": ys[1], "child": children[0], "opt": None, "m": None, "sub": "other", "id": "D:other-subcommand"})
+    # one invalid component anywhere makes the whole parse fail
+    for where, bad in (("x", S("Unrelated")), ("y", S("Base")), ("child", S("Unrelated")), ("child", S("Base", q=1)), ("opt", S("NOT_A_CLASS")), ("m", S("Unrelated")), ("m", S("SubAdd", c=True))):
+        case = {"part": "D", "x": xs[0], "y": ys[1], "child": children[0], "opt": None, "m": "default", "sub": "run", "invalid": where}
+        case[where] = bad
+        case["id"] = G.short_key(f"D:invalid:{where}={G.label(bad)}")
+        out.append(case)
+    return out
+
+
+def run_partD(case):
+    ev = []
+    lab = case["id"]
+    pd_base, pd_unrel = P("cls", of=("Base",)), P("cls", of=("Unrelated",), optional=True)
+    for notation in ("dotted", "cfg"):
+        parser = make_parser_D()
+        if notation == "dotted":
+            argv = G.render_dotted("x", case["x"], pd_base)
+            if case["y"] is not None:
+                argv += G.render_dotted("grp.y", case["y"], pd_unrel)
+            argv += G.render_dotted("g.child", case["child"], pd_base)
+            if case["opt"] is not None:
+                argv += G.render_dotted("g.opt", case["opt"], pd_base)
+            argv += ["--g.n=2", case["sub"]]
+            if case["sub"] == "run" and case["m"] != "default":
+                argv += G.render_dotted("m", case["m"], pd_base)
+            if case["sub"] == "run":
+                argv += ["--k=7"]
+        else:
+            top = {"x": G.render_json(case["x"], pd_base), "grp": {"y": G.render_json(case["y"], pd_unrel)},
+                   "g": {"child": G.render_json(case["child"], pd_base), "opt": G.render_json(case["opt"], pd_base), "n": 2}}
+            if case["sub"] == "run":
+                top["run"] = {"k": 7}
+                if case["m"] != "default":
+                    top["run"]["m"] = G.render_json(case["m"], pd_base)
+            argv = ["--cfg", json.dumps(top), case["sub"]]
+        key = f"{lab}:{notation}"
+        info = {"parser": SUMMARY_D, "call": "parse_args", "input": argv}
+        res = outcome(parser.parse_args, argv)
+        if case.get("invalid"):
+            info["result"] = res[:2] if res[0] != "ok" else G.plain(res[1])
+            ev.append(("check", res[0] != "ok", K("accepted-invalid", key), f"an invalid class configuration at {case['invalid']} was accepted", info))
+            ev.append(("nt", ("D", "invalid", key)))
+            continue
+        if res[0] != "ok":
+            info["result"] = res[:3]
+            ev.append(("check", False, K("valid-rejected", key), f"valid configuration rejected: {res[1:]}"[:400], info))
+            continue
+        got = G.plain(res[1])
+        info["result"] = got
+        m_model = S("SubAdd") if case["m"] == "default" else case["m"]
+        want = {"x": G.expected_spec(case["x"]), "grp": {"y": G.expected(pd_unrel, case["y"])},
+                "g": {"child": G.expected_spec(case["child"]), "opt": G.expected(P("cls", of=("Base",), optional=True), case["opt"]), "n": 2}}
+        if case["sub"] == "run":
+            want.update({"subcommand": "run", "run": {"m": G.expected_spec(m_model), "k": 7}})
+        else:
+            want.update({"subcommand": "other", "other": {"o": None}})
+        got_cmp = {k: v for k, v in got.items() if k not in ("cfg", "__path__")}
+        ev.append(("check", got_cmp == want and _same_types(got_cmp, want), K("config", key), f"parsed {got_cmp!r} differs from the denoted configuration {want!r}"[:700], info))
+        ev.append(("nt", ("D", "valid", key)))
+        del G.LOG[:]
+        r2 = outcome(parser.instantiate_classes, res[1])
+        log = list(G.LOG)
+        del G.LOG[:]
+        if r2[0] != "ok":
+            ev.append(("check", False, K("instantiate", key), f"instantiate_classes failed: {r2[1:]}"[:400], info))
+            continue
+        init = r2[1]
+        problems = []
+        G.check_built(init["x"], want["x"], log, problems, "x")
+        G.check_value(init["grp"]["y"], want["grp"]["y"], log, problems, "grp.y")
+        # the class group is built as a Holder from its own members
+        G.check_built(init["g"], {"class_path": G.path("Holder"), "init_args": want["g"]}, log, problems, "g")
+        total = {"x": want["x"], "y": want["grp"]["y"], "g": {"class_path": G.path("Holder"), "init_args": want["g"]}}
+        if case["sub"] == "run":
+            G.check_built(init["run"]["m"], want["run"]["m"], log, problems, "run.m")
+            if init["run"]["k"] != 7:
+                problems.append(("run.k", "args", "plain value changed by instantiate_classes"))
+            total["m"] = want["run"]["m"]
+        nc, nf = G.count_specs(total)
+        if G.constructions(log) != nc + nf:
+            problems.append(("*", "extra", f"{G.constructions(log)} objects constructed, configuration names {nc} classes and {nf} factories"))
+        if G.factory_calls(log) != nf:
+            problems.append(("*", "once", f"{G.factory_calls(log)} factory calls, configuration names {nf} factories"))
+        ev.append(("check", not problems, K("built" + ("-" + problems[0][1] if problems else ""), key), f"objects do not match the configuration: {problems[:3]}"[:500], info))
+    return ev
+
+
 def worker(case):
     try:
-        return {"A": run_partA, "B": run_partB, "C": run_partC}[case["part"]](case)
+        return {"A": run_partA, "B": run_partB, "C": run_partC, "D": run_partD}[case["part"]](case)
     except Exception as ex:  # noqa  - a crash of the harness itself must be visible, never silent
         import traceback
 
@@ -760,7 +893,7 @@ def main():
                 "non-trivial = distinct (validity, configuration, notation) actually parsed. Part B: each sequence of 2-3 (channel, class, arguments) steps; "
                 "non-trivial = distinct sequence reaching a verdict. Part C: nested class changes and import paths of instances. "
                 "One evaluation = one asserted clause (rejection of an invalid value / configuration equality / object tree vs. constructor log / ...)")
-    cases = partA_cases(h.thorough) + partB_cases(h.thorough) + partC_cases(h.thorough)
+    cases = partA_cases(h.thorough) + partB_cases(h.thorough) + partC_cases(h.thorough) + partD_cases(h.thorough)
     if h.thorough:
         # seeded extension: random pairs of flat specs in List / Holder positions
         flat = [s for s in flat_specs(True) if s["cls"] in G.MODEL and not any(isinstance(v, Bad) and v.tag == "null" for v in s.get("args", {}).values())]
@@ -800,10 +933,10 @@ def main():
         h.check(kinds["valid"] > 0 and kinds["invalid"] > 0, "b14:vacuous:partA", f"accepted and rejected inputs must both occur: {kinds}")
         h.check(kinds["accepted"] > 0 and kinds["rejected"] > 0, "b14:vacuous:partB", f"accepted and rejected sequences must both occur: {kinds}")
     h.note(f"cases run: {n}; Part A notation runs valid/invalid = {kinds['valid']}/{kinds['invalid']}; Part B sequences accepted/rejected = {kinds['accepted']}/{kinds['rejected']}")
-    bound = ("class family of 13 classes + 4 factories + 11 non-class/unimportable paths; declared types Base, Optional, Union (both orders), abstract base, unrelated, "
+    bound = ("class family of 14 classes (one with a dotted qualified name) + 4 factories + 10 non-class/unimportable paths + bare names of foreign/abstract classes; declared types Base, Optional, Union (both orders), abstract base, unrelated, "
              "List, Dict, Holder (1 level), Deep (2 levels), Multi (List/Dict/Union parameters); <= 1 invalid position per configuration (all depths); "
              "2 valid and up to 5 ill-typed values per scalar parameter; <= 10 notations; class changes: all ordered pairs of 6 classes x 2x2 argument sets x 12 channel "
-             "pairs" + (" (every fourth combination in the quick tier)" if not h.thorough else " + 1200 seeded random compositions + 1200 seeded random 3-4 step sequences") + "; 3-step sequences; 23 nested sequences")
+             "pairs" + (" (every fourth combination in the quick tier)" if not h.thorough else " + 1200 seeded random compositions + 1200 seeded random 3-4 step sequences") + "; 3-step sequences; 23 nested sequences; multi-component parser: 5 x 2 x 3 x 2 x 3 component configurations" + (" (every seventh)" if not h.thorough else "") + " + 7 invalid")
     sys.exit(h.finish(exhaustive=True, bound=bound))
 
 
